@@ -7,13 +7,70 @@ scanning the text; every comment run, token end, scanner input and `lineCol` que
 `vmodel tokens`.
 
 Any token whose reported (text, line, column, pos, length) differs from the oracle is a violation with
-the (shrunk) source as replay."""
+the (shrunk) source as replay — except the one recorded finding KEY_SCNR, which is accepted only where
+its signature explains every number exactly (see `Explainer`)."""
 import os
 from vlib import *
 
 LEVEL = "proof"
 THEOREMS = ["split_positions_correct", "end_line_col_correct", "end_line_col_in_source", "source_order",
             "scan_partition", "old_split_positions_correct_false", "old_split_pos_false", "old_split_col_false"]
+
+
+# scnr2 0.5.2, CharIterWithPosition::save_state/restore_state do not save `last_char`: when the scanner
+# backtracks from a failed longer match to a match that ended in a line feed, the next character is
+# not seen as the start of a new line.  From there to the end of the file lines are one too low, and
+# the rest of that line has the previous line's columns.
+KEY_SCNR = "scnr2:char_iter:restore_state-drops-last_char"
+
+
+class Explainer:
+    """Signature of KEY_SCNR for one source.  `lost` = byte offsets of line feeds the lexer did not
+    count.  A token's reported (line, column) is explained iff it equals the position computed by a
+    walk that treats exactly those line feeds as ordinary characters; a new offset may be added only
+    where the cause is present: the token starts right after the line feed, the lexer token before it
+    (comment run incl. its trailing white space, or embed content) ends in that line feed, and the token begins with `/` resp. `\\` (the
+    characters on which the comment resp. embed-content automaton reads on before failing)."""
+
+    def __init__(self, src):
+        self.src = src
+        self.lost = []
+
+    def walk(self, pos):
+        line, start = 1, 0
+        lost = set(self.lost)
+        i = self.src.find(b"\n")
+        while i != -1 and i < pos:
+            if i not in lost:
+                line += 1
+                start = i + 1
+            i = self.src.find(b"\n", i + 1)
+        try:
+            col = 1 + len(self.src[start:pos].decode("utf-8"))
+        except UnicodeDecodeError:
+            col = -1
+        return line, col
+
+    def explains(self, imp, ora, prev_text, prev_is_comment=False, prev_end=0):
+        i, o = parse_tok(imp), parse_tok(ora)
+        if i is None or o is None:
+            return False
+        if (i[0], i[3], i[4]) != (o[0], o[3], o[4]):      # text, pos, length must be right
+            return False
+        pos = o[3]
+        if self.lost and self.walk(pos) == (i[1], i[2]):
+            return True
+        text = unhex(i[0])
+        # the lexer's token in front: embed content ending in the line feed, or a comment run (the
+        # last comment plus the white space after it, which belongs to the run) ending in it
+        cause = prev_text.endswith(b"\n") or (prev_is_comment and self.src[prev_end:pos].strip() == b"")
+        if (pos >= 1 and self.src[pos - 1:pos] == b"\n" and cause
+                and (text.startswith(b"/") or text.startswith(b"\\")) and (pos - 1) not in self.lost):
+            self.lost.append(pos - 1)
+            if self.walk(pos) == (i[1], i[2]):
+                return True
+            self.lost.pop()
+        return False
 
 
 def unhex(h):
@@ -45,17 +102,22 @@ def describe(imp, ora):
 
 
 def mismatches(d):
-    """[(src_line, detail)] for every reply of the position log that differs from its oracle."""
+    """([(src_line, detail)] unexplained differences, {key: (src_line, detail)} smallest explained
+    witness per recorded finding, number of replies checked)."""
     ops = read_lines(f"{d}/pos/ops.txt") or []
     imp = read_lines(f"{d}/pos/impl.txt") or []
     ora = read_lines(f"{d}/pos/oracle.txt") or []
     if not (len(ops) == len(imp) == len(ora)):
-        return None, 0
-    out, src_line, checked = [], "", 0
+        return None, {}, 0
+    out, known, src_line, checked = [], {}, "", 0
+    ex, prev_text, prev_c, prev_end = None, b"", False, 0
     for o, i, r in zip(ops, imp, ora):
         t = o.split()
         if t[0] == "src":
             src_line = o
+            src = unhex(t[1])
+            ex = Explainer(src if src.endswith(b"\n") else src + b"\n")
+            prev_text, prev_c, prev_end = b"", False, 0
             if i == "panic":
                 out.append((src_line, "the parser panicked"))
             continue
@@ -65,17 +127,29 @@ def mismatches(d):
         if i != r:
             if t[0] == "eof":
                 out.append((src_line, f"text after the last token is not covered: {r}"))
+            elif ex is not None and ex.explains(i, r, prev_text, prev_c, prev_end):
+                if KEY_SCNR not in known or len(src_line) < len(known[KEY_SCNR][0]):
+                    known[KEY_SCNR] = (src_line, f"{o}: {describe(i, r)} (and every later line of the file one too low)")
             else:
                 out.append((src_line, f"{o}: {describe(i, r)}"))
-    return out, checked
+        if t[0] in ("t", "c"):
+            tok, otok = parse_tok(i), parse_tok(r)
+            if tok:
+                prev_text, prev_c = unhex(tok[0]), t[0] == "c"
+            if otok:
+                prev_end = otok[3] + otok[4]
+    return out, known, checked
 
 
 def analyse_pos(ctx, d):
-    bad, checked = mismatches(d)
+    bad, known, checked = mismatches(d)
     if bad is None:
         ctx.violation("hx tokens: position streams differ in length", {"kind": "harness"}, no_input=True, kind="model!=impl")
         return
     ctx.cov["evaluations"] += checked
+    for k, (line, detail) in sorted(known.items()):
+        ctx.violation(f"tokens: {k}: {detail}; source {unhex(line.split()[1])[:200]!r}", line + "\n", key=k, kind="impl!=oracle")
+        ctx.sample(f"{k}: {unhex(line.split()[1])[:120]!r} -> {detail}")
     for o in read_lines(f"{d}/pos/ops.txt") or []:
         if o.startswith("src "):
             ctx.distinct(o[4:])
@@ -91,7 +165,7 @@ def analyse_pos(ctx, d):
 
 
 def has_unexplained(ctx, d):
-    bad, _ = mismatches(d)
+    bad, _, _ = mismatches(d)
     return bad is None or bool(bad)
 
 
@@ -171,7 +245,9 @@ def run(ctx):
     ok = lean_check(ctx, "VerylModel.Props.C12", THEOREMS)
     ctx.cov["trusted_base"] = [
         "Lean 4.33 kernel; axioms ⊆ {propext, Classical.choice, Quot.sound}",
-        "parol/scnr2: (line, column, start, length) of ordinary tokens and of a whole comment run (validated on every token by the oracle)",
+        "parol/scnr2: (line, column, start, length) of ordinary tokens and of a whole comment run (validated on every token by the "
+        "oracle; one defect of scnr2's position tracking is a recorded finding); the model of split_comment_token is fed the run's "
+        "REPORTED (line, column, pos)",
         "regex crate semantics of COMMENT_REGEX = Core/TokenPos.scanComments (compared with the real regex, taken from the source text, on every run and on random texts)",
         "sources below 4 GiB (the code casts to u32)",
         "harness/src/dom_tokens.rs (oracle: sequential scan of the source) + checks/c12.py"]
